@@ -68,7 +68,7 @@ func verifFlushConns() {
 // is received or counted: endpoint absent (no spool) => conn_down_no_spool; healthy => received in order
 // or slow_conn; black-holing => hand-off still returns, overflow counted as slow_conn.
 func VerifC06Steady() {
-	behaviour := verifChoice("endpoint", 3) // 0 absent, 1 healthy, 2 accepts but never reads
+	behaviour := verifChoice("endpoint", 4) // 0 absent, 1 healthy, 2 accepts but never reads, 3 like 2 and then closes mid-stream
 	connBuf := 1 + verifChoice("connbuf", 2)
 	d := verifNewDest(false, connBuf, 4)
 	if behaviour != 0 {
@@ -76,7 +76,7 @@ func VerifC06Steady() {
 	}
 	d.Run()
 	verifSettle()
-	if behaviour == 2 {
+	if behaviour >= 2 {
 		verifEndpointStall(0, true)
 	}
 	n := 2 + verifChoice("nlines", 3)
@@ -113,6 +113,23 @@ func VerifC06Steady() {
 			}
 		}
 		verifAssert(nrecv+slow == n, "healthy-received-or-counted")
+	case 3:
+		// the black-holing endpoint now closes the connection while the writer is stuck in a write;
+		// afterwards the endpoint is gone: hand-off must still return and every line is counted conn-down
+		verifEndpointUp(false)
+		verifEndpointClose(0)
+		verifSettle()
+		// the relay notices the dead connection when it next wakes up: the line that wakes it belongs to
+		// the transition (C07's subject), the steady state starts after it
+		d.In <- []byte("transition")
+		verifSettle()
+		d0 := d.numDropNoConnNoSpool.Count()
+		more, _ := verifLines(2)
+		for _, l := range more {
+			d.In <- l
+			verifSettle()
+		}
+		verifAssert(int(d.numDropNoConnNoSpool.Count()-d0) == 2, "after-close-every-line-counted-conn-down")
 	case 2:
 		verifAssert(dropped == 0, "stalled-no-conn-down-drops")
 		// (only the no-stall claim applies to a black-holing endpoint: reaching this point means every hand-off returned)
